@@ -182,6 +182,8 @@ def _gen_F_once(r, lever_world=False):
         k = int(r.integers(3, 8))
         cand = [i for i in range(5, n - 2) if i not in taken]
         idx = sorted(int(x) for x in r.choice(cand, size=k, replace=False))
+        if r.random() < 0.3 and 0 not in taken:
+            idx = [0] + idx             # a fix stamped exactly with the initial state
         if taken and r.random() < 0.5:
             # an epoch shared with another sensor (position and velocity of one receiver)
             share = sorted(taken)
@@ -240,6 +242,10 @@ def _gen_F_once(r, lever_world=False):
             t[3] = 2
         for t in wd['force_terms']:
             t[3] = int(t[3]) % 2
+    # (A decimated trajectory for the feedforward filter is NOT part of the ladder: that
+    #  filter applies a fix at the last ROW not after it, so on every k-th row its state at a
+    #  row already contains fixes up to k IMU periods later - a zeroth-order difference of
+    #  bookkeeping, measured D = 1...20 sigma on the unchanged tree.)
     sc = dict(format=1, kind='filter', family='L' if lever_world else 'F',
               filter='feedback', profile='ladder',
               template='ladder', regime=regime, asynchronous=asynchronous, world=wd,
@@ -410,7 +416,8 @@ def _ladder_metrics(sc):
         g1, a1 = models()
         fb = filters.run_feedback_filter(m['initial'], *sig, m['increments'], g1, a1, **kw)
         g2, a2 = models()
-        ff = filters.run_feedforward_filter(m['computed'], m['computed'], *sig, g2, a2,
+        comp = m['computed'].iloc[::int(kn.get('ff_decimate', 1))]
+        ff = filters.run_feedforward_filter(comp, comp, *sig, g2, a2,
                                             increments=m['increments'], **kw)
         common = ff.trajectory.index.intersection(fb.trajectory_sd.index)
         if len(common) < 3:
@@ -508,6 +515,10 @@ def _exec_F(sc):
         probes['F_bias_on_a_subset_of_axes'] = 1
     if sc.get('asynchronous'):
         probes['F_aiding_epochs_between_imu_epochs'] = 1
+    if kn.get('ff_decimate'):
+        probes['F_feedforward_on_decimated_trajectory'] = 1
+    if any(s_['stamps'] and s_['stamps'][0] == sc['imu']['stamps'][0] for s_ in sc['sensors']):
+        probes['F_fix_at_the_initial_stamp'] = 1
     if sc.get('family') == 'L':
         probes = {'L_directed_lever_arm_worlds': 1}
     if FW.model_has_sm(kn['gyro_model']) or FW.model_has_sm(kn['accel_model']):
@@ -564,7 +575,8 @@ PROBES_WANTED = ['T_runs', 'T_measurements_none', 'T_measurements_empty', 'T_emp
                  'R_two_scenarios_share_models', 'F_worlds', 'F_weak_aiding',
                  'F_strong_aiding', 'F_scale_misalignment_states', 'F_two_d_mode',
                  'L_directed_lever_arm_worlds', 'F_epoch_shared_between_sensors',
-                 'F_bias_on_a_subset_of_axes', 'F_aiding_epochs_between_imu_epochs']
+                 'F_bias_on_a_subset_of_axes', 'F_aiding_epochs_between_imu_epochs',
+                 'F_feedforward_on_decimated_trajectory', 'F_fix_at_the_initial_stamp']
 
 
 def describe():
